@@ -90,11 +90,17 @@ FamC04(dummy) ==
   IN  {Run(ProgC04(kd, pr, h), <<>>, {}) : kd \in Kinds8, pr \in Profiles(nmax, dmax) \cup WideC04 \cup BareC04, h \in BOOLEAN}
       \cup {Run(ProgC04c(Kind(FALSE, t, sp), "opt", pr, h), <<>>, {}) : t \in BOOLEAN, sp \in BOOLEAN, h \in BOOLEAN,
                pr \in {<<2>>, <<1, 2>>, <<3, 1, 2>>, <<1, 2, 2>>, <<2, 1, 3, 1, 2>>}}
+      \* a custom joiner between the branches and the step tuple (steps with one active branch must not go through it)
+      \cup {Run([ProgC04(kd, pr, h) EXCEPT !.opts = [joiner |-> "eager", lazy |-> "default", transpose |-> "default", path |-> "default"]], <<>>, {}) :
+               kd \in Kinds8, h \in BOOLEAN, pr \in {<<2>>, <<2, 1>>, <<1, 3, 2>>, <<2, 2, 1>>}}
 
 \* C05/C06: try macros, every placement of <= 2 (quick) / 3 failures over and_then items and initial values
 StepsC05(b, d, variant) ==
   [k \in 1 .. d |->
-     IF variant = 1 /\ k = 1
+     IF variant = 3 /\ k > 1      \* later steps led by an operator that acts on the failure side / on the whole value
+     THEN <<Item(IdOf(b, k - 1, 1), CASE (b + k) % 3 = 0 -> "map_err" [] (b + k) % 3 = 1 -> "or_else" [] OTHER -> "then", "closure", <<>>),
+            Item(IdOf(b, k - 1, 2), "and_then", "closure", <<>>)>>
+     ELSE IF variant = 1 /\ k = 1
      THEN <<Item(IdOf(b, 0, 1), "and_then", "closure", <<>>), Item(IdOf(b, 0, 2), "or_else", "closure", <<>>)>>
      ELSE IF variant = 2
      THEN <<Item(IdOf(b, k - 1, 1), "and_then", IF k > 1 THEN "block" ELSE "call", <<>>)>>
@@ -114,6 +120,8 @@ FamC05(dummy) ==
       profs == {pr \in Profiles(nmax, 3) : Tier # "quick" \/ Len(pr) <= 2 \/ \A i \in 1 .. Len(pr) : pr[i] <= dmax \/ pr = <<1, 3, 3>>}
   IN  UNION {{Run(ProgC05(kd, pr, v, h, "res"), pl, {}) : pl \in PlansC05(ProgC05(kd, pr, v, h, "res"), v)}
              : kd \in TryKinds, pr \in profs, v \in 0 .. 2, h \in {"none", "map"}}
+      \cup UNION {{Run(ProgC05(kd, pr, 3, h, "res"), pl, {}) : pl \in FailPlans(ItemIds(ProgC05(kd, pr, 3, h, "res"), {"and_then"}), 2)}
+                  : kd \in TryKinds, pr \in {<<2, 2>>, <<1, 3>>, <<3, 1, 2>>}, h \in {"none", "map"}}
 
 
 \* ---- C03: barrier under every release / readiness order.  Every and_then is gated.
@@ -390,7 +398,7 @@ Runs(dummy) ==
             [] Family = "C06" -> FamC06(0)
             [] Family = "C06h" -> FamC06h(0)
             \* + readiness orders of failing branches in the task-spawning async try macro, under both of its names
-            [] Family = "C07" -> FamC07(0) \cup {[r EXCEPT !.prog.macro = m] : m \in MacroNames(Kind(TRUE, TRUE, TRUE)),
+            [] Family = "C07" -> FamC07(0) \cup {[r EXCEPT !.prog.caller = "unnamed"] : r \in {q \in FamC07(0) : q.prog.kind.spawn /\ ~q.prog.kind.async /\ q.plan = <<>>}} \cup {[r EXCEPT !.prog.macro = m] : m \in MacroNames(Kind(TRUE, TRUE, TRUE)),
                                                    r \in {q \in FamC05a(0) : q.prog.kind.spawn /\ q.prog.handler = "none" /\ NB(q.prog) = 2}}
             [] Family = "C07x" -> {[r EXCEPT !.prog.macro = AliasOf(r.prog.kind)] :
                                      r \in {q \in FamC04(0) \cup FamC10(0) \cup FamC13(0) \cup FamC16(0) : q.prog.kind.spawn}}
